@@ -24,4 +24,65 @@ def monAfter (cfg : Cfg) (ops : List Op) : Mon := ops.foldl (Mon.step cfg) Mon.i
 /-- the tables satisfy the range contract of `rdsparser_ecc_lookup` -/
 def EccOk (tb : Tabs) : Prop := 0 < tb.countryCount ∧ ∀ n e, tb.cfg.ecc n e < tb.countryCount
 
+/-- the C API's argument ranges: 16-bit blocks, 8-bit error codes and threshold values,
+bytes of a C string are 1..255 -/
+def Group.Bounded (g : Group) : Prop :=
+  g.a < 65536 ∧ g.b < 65536 ∧ g.c < 65536 ∧ g.d < 65536 ∧ g.ea < 256 ∧ g.eb < 256 ∧ g.ec < 256 ∧ g.ed < 256
+
+def Op.Bounded : Op → Prop
+  | .parse g => g.Bounded
+  | .parseString (some bytes) => ∀ c ∈ bytes, 1 ≤ c ∧ c < 256
+  | .setCorr _ _ v => v < 256
+  | _ => True
+
+/-! ## C03: which blocks are read on an accepted path (the property's list) -/
+
+def anyInfo (set : Settings) (eb : Nat) : Bool :=
+  eb ≤ set.psInfo || eb ≤ set.rtInfo || eb ≤ set.ptynInfo
+
+/-- block A is used iff it is error-free (PI) -/
+def usedA (g : Group) : Bool := g.ea = 0
+
+/-- block B is used iff it is error-free (PTY/TP, TA/MS, group type for AF/ECC/CT) or within
+some text's configured maximum for block B -/
+def usedB (set : Settings) (g : Group) : Bool := g.eb = 0 || anyInfo set g.eb
+
+/-- block C carries AF (0A), ECC (1A), RT characters (2A), clock time (4A), PTYN (10A) -/
+def usedC (set : Settings) (g : Group) : Bool :=
+  if g.versionB then false else
+  if g.type = 0 then g.eb = 0 && g.ec = 0
+  else if g.type = 1 then g.eb = 0 && g.ec = 0
+  else if g.type = 2 then g.eb ≤ set.rtInfo && g.ec ≤ set.rtData
+  else if g.type = 4 then g.eb = 0 && g.ec = 0 && g.ed = 0
+  else if g.type = 10 then g.eb ≤ set.ptynInfo && g.ec ≤ set.ptynData
+  else false
+
+/-- block D carries PS (0A/0B), RT (2A/2B), clock time (4A), PTYN (10A) characters -/
+def usedD (set : Settings) (g : Group) : Bool :=
+  if g.type = 0 then g.eb ≤ set.psInfo && g.ed ≤ set.psData
+  else if g.type = 2 then g.eb ≤ set.rtInfo && g.ed ≤ set.rtData
+  else if g.type = 4 then !g.versionB && g.eb = 0 && g.ec = 0 && g.ed = 0
+  else if g.type = 10 then !g.versionB && g.eb ≤ set.ptynInfo && g.ed ≤ set.ptynData
+  else false
+
+/-- `g'` carries the same error codes as `g` and the same data in every block that is used
+(decided on `g`; if block B is unused, C and D are unused as well) -/
+def sameUsed (set : Settings) (g g' : Group) : Bool :=
+  g.ea = g'.ea && g.eb = g'.eb && g.ec = g'.ec && g.ed = g'.ed &&
+  (!usedA g || g.a = g'.a) &&
+  (!usedB set g || (g.b = g'.b &&
+     (!usedC set g || g.c = g'.c) && (!usedD set g || g.d = g'.d)))
+
+/-! ## C15: observers -/
+
+/-- forget who is listening -/
+def erase (s : State) : State := { s with cbs := List.replicate 12 false, ud := 0 }
+
+/-- everybody is listening -/
+def listenAll (s : State) : State := { s with cbs := List.replicate 12 true }
+
+def Op.isObserver : Op → Bool
+  | .register _ _ | .userData _ | .getters => true
+  | _ => false
+
 end RDS
